@@ -70,3 +70,12 @@ def parse(text, ts, **kw):
 def parse_all(text, ts, **kw):
     kw.setdefault("timeout", 0)
     return [p for p in CT.ctparse_gen(text, ts=ts, **kw) if p is not None]
+
+
+def conc(x, lo, hi):
+    """case split inside one obligation: on each path x becomes the concrete integer it equals
+    (CrossHair forks on the comparisons; all values lo..hi are covered)"""
+    for v in range(lo, hi + 1):
+        if x == v:
+            return v
+    return x
